@@ -20,6 +20,7 @@ type engCfg struct {
 	trialDays   int  // first days without debiting
 	paramChanges bool // the administrator changes parameters (incl. the promises algorithm) during the run
 	strictDaily bool // C17: exactly one update per day, same-day in-order check-ins, no traveller close/reopen
+	samePrefix  bool // all record keys start with the same hex digit: one table iterator visits them one after the other
 }
 
 type plannedTrip struct {
@@ -91,8 +92,12 @@ func genEngine(rng *Rng, workdir string, proj string, cfg engCfg) *engSession {
 	p := pickEngParams(rng, cfg)
 	s.setParams(p)
 	used := map[string]bool{}
+	nib := -1
+	if cfg.samePrefix {
+		nib = rng.Intn(16)
+	}
 	for i := 0; i < cfg.nTrav; i++ {
-		s.addTraveller(passportWithPrefix(rng, -1, used))
+		s.addTraveller(passportWithPrefix(rng, nib, used))
 	}
 	day := uint64(rng.Range(17500, 19500))
 	plans := make([][]*plannedTrip, cfg.nTrav)
